@@ -39,6 +39,6 @@ theorem polyline_points_translate (tr d : Pt) (vs : List Pt) :
     Polyline.points ((⟨tr, vs⟩ : Polyline).translateBy d) = (Polyline.points ⟨tr, vs⟩).map (· + d) :=
   C19.polyline_points_translate tr d vs
 
--- [V] stroked lines wider than one pixel, thick polylines and stroked triangles (parallels iterator, joins, miter/bevel classification): carried by correspondence + oracle only
+-- Stroked lines wider than one pixel: EG/Props/C07/ThickLine.lean (every width, no guard); thick polylines and stroked triangles (joins, miter/bevel classification): EG/Props/C07/Joins.lean, JoinsDisplayScale.lean.
 
 end EG.C07.Line
